@@ -498,9 +498,9 @@ class Exec(object):
             m = it[1]; k = fresh('k', m.t.args[0])
             self.bind_target(p, target, SV(m.t.args[1], Select(map_val(m), k.z)), env_upd)
             return [k.z], Select(map_dom(m), k.z), env_upd, None
-        if kind == 'typed':        # spec only: unbounded domain with a guard
+        if kind == 'typed':        # spec only: unbounded domain with a guard (program code: the unbounded character supply)
             x = fresh('x', it[1]); self.bind_target(p, target, x, env_upd)
-            return [x.z], it[2](x), env_upd, None
+            return [x.z], it[2](x), env_upd, (('supply',) if len(it) > 3 else None)
         raise Unsupported('iteration over %s' % kind)
 
     def bind_target(self, p, target, v, env_upd):
@@ -576,7 +576,19 @@ class Exec(object):
                 mk = parts(tt)[1]
                 self.assume(p, ForAll([i, j], Select(ps.z, mk(i, j)) == And(0 <= i, (i < j) if strict else (i <= j), j < n.z)))
                 return ('set', ps)
+        if name == 'chain' and self.is_char_supply(e):
+            # itertools.chain('..', map(chr, itertools.count(k))): an unbounded supply of one-character strings.  Over-approximated by
+            # "any string" (sound for every statement about the element picked); that the supply is not exhausted before the consumer
+            # finds what it looks for is NOT proved (recorded assumption A-char-supply)
+            self.used_char_supply = True
+            return ('typed', ATOM, lambda x: BoolVal(True), 'supply')
         raise Unsupported('itertools.%s' % name)
+
+    @staticmethod
+    def is_char_supply(e):
+        def is_count(a): return isinstance(a, ast.Call) and isinstance(a.func, ast.Attribute) and a.func.attr == 'count' and isinstance(a.func.value, ast.Name) and a.func.value.id == 'itertools'
+        def is_map_chr(a): return isinstance(a, ast.Call) and isinstance(a.func, ast.Name) and a.func.id == 'map' and len(a.args) == 2 and isinstance(a.args[0], ast.Name) and a.args[0].id == 'chr' and is_count(a.args[1])
+        return bool(e.args) and is_map_chr(e.args[-1]) and all(isinstance(a, ast.Constant) and isinstance(a.value, str) for a in e.args[:-1])
 
     def gen_of(self, p, e):
         """ListComp / SetComp / GeneratorExp -> Gen"""
@@ -590,6 +602,7 @@ class Exec(object):
                 self.binders.append((vs, guard)); pushed += 1
                 vars_ += vs; guards.append(guard)
                 if len(e.generators) == 1 and not g.ifs and ordinfo: ordered = ordinfo
+                if ordinfo == ('supply',): ordered = ordinfo
                 for c in g.ifs:
                     cz = self.truth(self.ev(p, c)); guards.append(cz)
                     self.binders.append(([], cz)); pushed += 1
@@ -828,7 +841,8 @@ class Exec(object):
         if isinstance(g, Gen):
             if self.has_bound_vars(): raise Unsupported('next() under binders')
             grd = And(g.guards) if g.guards else BoolVal(True)
-            self.oblig(p, 'next-nonempty:%d' % e.lineno, 'safety', Exists(g.vars, grd) if g.vars else grd, e.lineno)
+            if g.ordered_list != ('supply',):      # an unbounded supply is assumed not to run out (A-char-supply)
+                self.oblig(p, 'next-nonempty:%d' % e.lineno, 'safety', Exists(g.vars, grd) if g.vars else grd, e.lineno)
             # arbitrary element satisfying the guard (the first one in CPython; every choice is covered)
             ren = [fresh_z('nx', v.sort()) for v in g.vars]
             sub = list(zip(g.vars, ren))
